@@ -6,7 +6,7 @@ from checks.seqs import replay_with_resume
 
 SPECDIR = os.path.join(vlib.SPECS, "str")
 OPS = ["?", "catc", "catc_", "catn", "catn_", "cats", "cats_", "cat", "cat_", "catf", "utf_catc", "getc", "getc_", "getn", "getn_",
-       "rtrim", "rtrim_", "ltrim", "ltrim_", "trim", "trim_", "setn", "setn_", "setm", "setm_", "exit", "cmpn", "cmps", "cmp", "utf_len"]
+       "rtrim", "rtrim_", "ltrim", "ltrim_", "trim", "trim_", "setn", "setn_", "setm", "setm_", "exit", "cmpn", "cmps", "cmp", "utf_len", "acc"]
 
 
 def configs(tier):
@@ -38,7 +38,7 @@ def run(pid, tier, replay=None):
         "the unchecked variants setn_/setm_ are only called within the capacity / not below the length; bytes exposed by a growing setn are written by the harness",
     ]
     exhaustive = True
-    opc = [0] * 30
+    opc = [0] * 31
     for name, consts in configs(tier):
         cfg = vlib.write_cfg(sc.path(name + ".cfg"), ["CONSTANTS"] + [" " + c for c in consts] + ["INIT Init", "NEXT Next", "VIEW view", "INVARIANT Inv", "ACTION_CONSTRAINT Emit"])
         out = sc.path("edges-%s.out" % name)
